@@ -28,19 +28,19 @@ theorem base_reads {full w method rest : Bytes} {c l t : Nat} {a lv : Byte}
     fun s => rdU32_drop d15 ht, fun s => rdU8_drop_byte d20, d21, hlen⟩
 
 theorem enc_l2 (c : Nat) {f : Fields} (hl : f.level = 2) :
-    encodeWith c f = le16 (if f.osType = 0x4b then 26 + chainLen 2 f.exts - 2 else 26 + chainLen 2 f.exts) ++
+    encodeWith c f = le16 (if f.osType = 0x4b then 26 + chainLen 2 f.exts + f.trail.length - 2 else 26 + chainLen 2 f.exts + f.trail.length) ++
       (f.method ++ (le32 f.clen ++ (le32 f.length ++ (le32 f.time ++ (UInt8.ofNat f.attr :: 2 ::
-        (le16 f.crc ++ (UInt8.ofNat f.osType :: (le16 (firstSize 2 f.exts) ++ chain 2 c f.exts)))))))) := by
+        (le16 f.crc ++ (UInt8.ofNat f.osType :: (le16 (firstSize 2 f.exts) ++ (chain 2 c f.exts ++ f.trail))))))))) := by
   simp [encodeWith, hl, List.append_assoc]
 
 
 def pre2 (f : Fields) : Bytes :=
-  le16 (if f.osType = 0x4b then 26 + chainLen 2 f.exts - 2 else 26 + chainLen 2 f.exts) ++
+  le16 (if f.osType = 0x4b then 26 + chainLen 2 f.exts + f.trail.length - 2 else 26 + chainLen 2 f.exts + f.trail.length) ++
       (f.method ++ (le32 f.clen ++ (le32 f.length ++ (le32 f.time ++ (UInt8.ofNat f.attr :: 2 ::
         (le16 f.crc ++ [UInt8.ofNat f.osType]))))))
 
 theorem enc_l2' (c : Nat) {f : Fields} (hl : f.level = 2) :
-    encodeWith c f = pre2 f ++ (leN 2 (firstSize 2 f.exts) ++ chain 2 c f.exts) := by
+    encodeWith c f = pre2 f ++ (leN 2 (firstSize 2 f.exts) ++ (chain 2 c f.exts ++ f.trail)) := by
   rw [enc_l2 c hl]
   simp [pre2, leN, List.append_assoc]
 
@@ -75,7 +75,7 @@ theorem wf_common {f : Fields} (hwf : wf f = true) :
   exact ⟨h1, h2, h3, h4, h5, h6, h7, h8, h9⟩
 
 theorem wf_l2 {f : Fields} (hwf : wf f = true) (hl : f.level = 2) :
-    26 + chainLen 2 f.exts < 65536 ∧ (f.osType = 0x4b → 28 ≤ 26 + chainLen 2 f.exts) := by
+    26 + chainLen 2 f.exts + f.trail.length < 65536 ∧ (f.osType = 0x4b → 28 ≤ 26 + chainLen 2 f.exts + f.trail.length) := by
   simp only [wf, Bool.and_eq_true, decide_eq_true_eq, List.all_eq_true, hl] at hwf
   obtain ⟨-, hx⟩ := hwf
   simp at hx
@@ -91,12 +91,12 @@ theorem level2_rt (mk : Nat → Nat) (f : Fields) (hwf : wf f = true) (hl : f.le
   have hcrc := crc_lt (rawOf f)
   generalize hc : (Crc.buf 0 (rawOf f)).toNat = crc at hcrc
   have hE : encode f = encodeWith crc f := by rw [← hc]; rfl
-  have hElen : (encode f).length = 26 + chainLen 2 f.exts := by
+  have hElen : (encode f).length = 26 + chainLen 2 f.exts + f.trail.length := by
     rw [hE, enc_l2 crc hl]
     simp only [List.length_append, List.length_cons, le32_length, le16_length, hm,
       chain_length (Or.inl rfl)]
     omega
-  have hfl : full.length = 26 + chainLen 2 f.exts + data.length := by
+  have hfl : full.length = 26 + chainLen 2 f.exts + f.trail.length + data.length := by
     rw [hfull, List.length_append, hElen]
   have hfullE := hfull
   rw [hE, enc_l2 crc hl] at hfull
@@ -105,8 +105,8 @@ theorem level2_rt (mk : Nat → Nat) (f : Fields) (hwf : wf f = true) (hl : f.le
   have d0 := drop_zero_eq hfull
   have d23 := drop_app (m := 23) d21 rfl
   have d24 := drop_cons (m := 24) d23 rfl
-  generalize hHL : (if f.osType = 75 then 26 + chainLen 2 f.exts - 2 else 26 + chainLen 2 f.exts) = HL at d0
-  have hHL1 : 26 ≤ HL ∧ HL ≤ 26 + chainLen 2 f.exts := by
+  generalize hHL : (if f.osType = 75 then 26 + chainLen 2 f.exts + f.trail.length - 2 else 26 + chainLen 2 f.exts + f.trail.length) = HL at d0
+  have hHL1 : 26 ≤ HL ∧ HL ≤ 26 + chainLen 2 f.exts + f.trail.length := by
     rw [← hHL]; split
     · have := h4b ‹_›; omega
     · omega
@@ -124,20 +124,20 @@ theorem level2_rt (mk : Nat → Nat) (f : Fields) (hwf : wf f = true) (hl : f.le
     rdU16_take_of (n := HL) (by omega) (rCrc _), rdU8_take_of (n := HL) (by omega) (rOs _), Res.ok_bind]
   have hfinal : ∀ r, decodeExtendedHeaders
       { method := f.method, compressedLength := f.clen, length := f.length, level := 2, osType := f.osType,
-        crc := f.crc, timestamp := f.time, raw := List.take (26 + chainLen 2 f.exts) full } 24 >>=
+        crc := f.crc, timestamp := f.time, raw := List.take (26 + chainLen 2 f.exts + f.trail.length) full } 24 >>=
         (fun h => (pure (h, r) : Res (Hdr × Bytes))) = .ok (typed mk f, r) := by
     intro r
     rw [hfullE, take_enc hElen.symm, hE,
-      decodeExtendedHeaders_chain (fs := 2) (Or.inl rfl) hcrc f.exts _ (pre2 f) (pre2_length hm).symm rfl hexts
+      decodeExtendedHeaders_chain_trail (fs := 2) (Or.inl rfl) hcrc f.exts f.trail _ (pre2 f) (pre2_length hm).symm rfl hexts
         (fun e he => by have := extSize_le_chainLen 2 f.exts e he; omega) (enc_l2' crc hl)]
     simp only [Res.ok_bind, Res.pure_eq]
     rw [typed_l23 mk (by omega) hc, ← enc_l2' 0 hl, hl]
     exact congrArg (fun x => Res.ok (x, r)) (foldl_raw_irrel crc f.exts _ rfl)
-  have hdrop : full.drop (26 + chainLen 2 f.exts) = data := by rw [hfullE]; exact drop_enc hElen.symm
+  have hdrop : full.drop (26 + chainLen 2 f.exts + f.trail.length) = data := by rw [hfullE]; exact drop_enc hElen.symm
   by_cases h75 : f.osType = 75
   · rw [if_pos h75] at hHL ⊢
     have := h4b h75
-    rw [extend_take (k := 26 + chainLen 2 f.exts) rfl (by omega) (by omega) (by omega)]
+    rw [extend_take (k := 26 + chainLen 2 f.exts + f.trail.length) rfl (by omega) (by omega) (by omega)]
     simp only [Res.ok_bind, hdrop]
     exact hfinal data
   · rw [if_neg h75] at hHL ⊢
@@ -150,16 +150,16 @@ theorem level2_rt (mk : Nat → Nat) (f : Fields) (hwf : wf f = true) (hl : f.le
 theorem enc_l3 (c : Nat) {f : Fields} (h0 : ¬ f.level = 0) (h1 : ¬ f.level = 1) (h2 : ¬ f.level = 2) :
     encodeWith c f = le16 4 ++
       (f.method ++ (le32 f.clen ++ (le32 f.length ++ (le32 f.time ++ (UInt8.ofNat f.attr :: 3 ::
-        (le16 f.crc ++ (UInt8.ofNat f.osType :: (le32 (32 + chainLen 4 f.exts) ++
-          (le32 (firstSize 4 f.exts) ++ chain 4 c f.exts))))))))) := by
+        (le16 f.crc ++ (UInt8.ofNat f.osType :: (le32 (32 + chainLen 4 f.exts + f.trail.length) ++
+          (le32 (firstSize 4 f.exts) ++ (chain 4 c f.exts ++ f.trail)))))))))) := by
   simp [encodeWith, h0, h1, h2, List.append_assoc]
 
 def pre3 (f : Fields) : Bytes :=
   le16 4 ++ (f.method ++ (le32 f.clen ++ (le32 f.length ++ (le32 f.time ++ (UInt8.ofNat f.attr :: 3 ::
-        (le16 f.crc ++ (UInt8.ofNat f.osType :: le32 (32 + chainLen 4 f.exts))))))))
+        (le16 f.crc ++ (UInt8.ofNat f.osType :: le32 (32 + chainLen 4 f.exts + f.trail.length))))))))
 
 theorem enc_l3' (c : Nat) {f : Fields} (h0 : ¬ f.level = 0) (h1 : ¬ f.level = 1) (h2 : ¬ f.level = 2) :
-    encodeWith c f = pre3 f ++ (leN 4 (firstSize 4 f.exts) ++ chain 4 c f.exts) := by
+    encodeWith c f = pre3 f ++ (leN 4 (firstSize 4 f.exts) ++ (chain 4 c f.exts ++ f.trail)) := by
   rw [enc_l3 c h0 h1 h2]
   simp [pre3, leN, List.append_assoc]
 
@@ -167,7 +167,7 @@ theorem pre3_length {f : Fields} (hm : f.method.length = 5) : (pre3 f).length = 
   simp only [pre3, List.length_append, List.length_cons, le32_length, le16_length, hm]
 
 theorem wf_l3 {f : Fields} (hwf : wf f = true) (hl : f.level = 3) :
-    32 + chainLen 4 f.exts ≤ 1048576 := by
+    32 + chainLen 4 f.exts + f.trail.length ≤ 1048576 := by
   simp only [wf, Bool.and_eq_true, decide_eq_true_eq, List.all_eq_true, hl] at hwf
   obtain ⟨-, hx⟩ := hwf
   simp at hx
@@ -184,12 +184,12 @@ theorem level3_rt (mk : Nat → Nat) (f : Fields) (hwf : wf f = true) (hl : f.le
   have l0 : ¬ f.level = 0 := by omega
   have l1 : ¬ f.level = 1 := by omega
   have l2 : ¬ f.level = 2 := by omega
-  have hElen : (encode f).length = 32 + chainLen 4 f.exts := by
+  have hElen : (encode f).length = 32 + chainLen 4 f.exts + f.trail.length := by
     rw [hE, enc_l3 crc l0 l1 l2]
     simp only [List.length_append, List.length_cons, le32_length, le16_length, hm,
       chain_length (Or.inr rfl)]
     omega
-  have hfl : full.length = 32 + chainLen 4 f.exts + data.length := by
+  have hfl : full.length = 32 + chainLen 4 f.exts + f.trail.length + data.length := by
     rw [hfull, List.length_append, hElen]
   have hfullE := hfull
   rw [hE, enc_l3 crc l0 l1 l2] at hfull
@@ -200,7 +200,7 @@ theorem level3_rt (mk : Nat → Nat) (f : Fields) (hwf : wf f = true) (hl : f.le
   have d24 := drop_cons (m := 24) d23 rfl
   have r0 : ∀ s, rdU16 s (full.take 22) 0 = .ok 4 := fun s =>
     rdU16_take_of (by omega) (rdU16_drop d0 (by omega))
-  have rHL : ∀ s, rdU32 s full 24 = .ok (32 + chainLen 4 f.exts) := fun s => rdU32_drop d24 (by omega)
+  have rHL : ∀ s, rdU32 s full 24 = .ok (32 + chainLen 4 f.exts + f.trail.length) := fun s => rdU32_drop d24 (by omega)
   have rCrc : ∀ s, rdU16 s full 21 = .ok f.crc := fun s => rdU16_drop d21 hfcrc
   have rOs : ∀ s, rdU8 s full 23 = .ok f.osType := fun s => rdU8_drop d23 hos
   unfold decodeLevel3
@@ -209,17 +209,17 @@ theorem level3_rt (mk : Nat → Nat) (f : Fields) (hwf : wf f = true) (hl : f.le
     extend_take (k := 32) rfl (by omega) (by omega) (by omega)]
   simp only [Res.ok_bind, rdU32_take_of (n := 32) (by omega) (rHL _), List.length_take]
   rw [if_neg (by omega), Nat.min_eq_left (by omega),
-    extend_take (k := 32 + chainLen 4 f.exts) rfl (by omega) (by omega) (by omega)]
+    extend_take (k := 32 + chainLen 4 f.exts + f.trail.length) rfl (by omega) (by omega) (by omega)]
   simp only [Res.ok_bind]
-  simp only [rdSlice_take_of (n := 32 + chainLen 4 f.exts) (by omega) (by omega) (rM _),
-    rdU32_take_of (n := 32 + chainLen 4 f.exts) (by omega) (rC _),
-    rdU32_take_of (n := 32 + chainLen 4 f.exts) (by omega) (rL _),
-    rdU32_take_of (n := 32 + chainLen 4 f.exts) (by omega) (rT _),
-    rdU16_take_of (n := 32 + chainLen 4 f.exts) (by omega) (rCrc _),
-    rdU8_take_of (n := 32 + chainLen 4 f.exts) (by omega) (rOs _), Res.ok_bind]
-  have hdrop : full.drop (32 + chainLen 4 f.exts) = data := by rw [hfullE]; exact drop_enc hElen.symm
+  simp only [rdSlice_take_of (n := 32 + chainLen 4 f.exts + f.trail.length) (by omega) (by omega) (rM _),
+    rdU32_take_of (n := 32 + chainLen 4 f.exts + f.trail.length) (by omega) (rC _),
+    rdU32_take_of (n := 32 + chainLen 4 f.exts + f.trail.length) (by omega) (rL _),
+    rdU32_take_of (n := 32 + chainLen 4 f.exts + f.trail.length) (by omega) (rT _),
+    rdU16_take_of (n := 32 + chainLen 4 f.exts + f.trail.length) (by omega) (rCrc _),
+    rdU8_take_of (n := 32 + chainLen 4 f.exts + f.trail.length) (by omega) (rOs _), Res.ok_bind]
+  have hdrop : full.drop (32 + chainLen 4 f.exts + f.trail.length) = data := by rw [hfullE]; exact drop_enc hElen.symm
   rw [hdrop, hfullE, take_enc hElen.symm, hE,
-      decodeExtendedHeaders_chain (fs := 4) (Or.inr rfl) hcrc f.exts _ (pre3 f) (pre3_length hm).symm rfl hexts
+      decodeExtendedHeaders_chain_trail (fs := 4) (Or.inr rfl) hcrc f.exts f.trail _ (pre3 f) (pre3_length hm).symm rfl hexts
         (fun e he => by have := extSize_le_chainLen 4 f.exts e he; omega) (enc_l3' crc l0 l1 l2)]
   simp only [Res.ok_bind, Res.pure_eq]
   rw [typed_l23 mk (by omega) hc, ← enc_l3' 0 l0 l1 l2, hl]
